@@ -74,7 +74,11 @@ GtCases ==
              v \in {"div", "nodiv", "powx", "c"}, a \in GTBases, k \in Exps, al \in {0, 1} })
   \o SetToSeq({ [op |-> "gt.op", which |-> w, a |-> Raw12(a), b |-> Raw12(b), alias |-> al, src |-> "gen"] :
                 w \in {"add", "negate", "double", "equal", "marshal"}, a \in GTBases, b \in GTBases, al \in {0, 1, 2} })
-  \o SetToSeq({ [op |-> "gt.random", variant |-> v, a |-> Raw12(a), stream |-> s, src |-> "gen"] : v \in {"c", "cpp"}, a \in GTBases, s \in PowXStreams })
+  \o SetToSeq({ [op |-> "gt.op", which |-> "add", a |-> Raw12(a), b |-> Raw12(a), alias |-> 3, src |-> "gen"] : a \in GTBases })
+  \o SetToSeq({ [op |-> "gt.random", variant |-> v, a |-> Raw12(a), stream |-> s, alias |-> al, src |-> "gen"] : v \in {"c", "cpp"}, a \in GTBases, s \in PowXStreams, al \in {0, 1} })
+  \* the final exponentiation as a function on all of Fq12* (its input is a Miller-loop value, not a GT element)
+  \o SetToSeq({ [op |-> "gt.finalexp", a |-> Raw12(a), alias |-> al, src |-> "gen"] :
+                a \in { GTGen, << <<<<Rnd(61), Rnd(62)>>, <<Rnd(63), Rnd(64)>>, <<Rnd(65), Rnd(66)>>>>, <<<<Rnd(67), Rnd(68)>>, <<Rnd(69), Rnd(70)>>, <<Rnd(71), Rnd(72)>>>> >> }, al \in {0, 1} })
 
 Cases == CASE What = "single" -> SingleCases [] What = "sum" -> SumCases [] OTHER -> GtCases
 ASSUME PrintT(<<"cases", Len(Cases)>>)
